@@ -372,3 +372,20 @@ def run(repo: Repo, chk: Check, thorough: bool = False) -> None:
     if n6 < 1:
         raise AnalysisError('R17.6: the `$` expansion of getLink (endswith + slice) was not found')
     chk.require('R17.6', 1)
+
+    # ------------------------------------------------------------------ R17.3 (addition): a damaged stream keeps what precedes the damage
+    # "usable lines in the same file still resolve": truncation is handled by reading `eof`; a flipped byte in the MIDDLE of the stream makes
+    # decompress() raise after it has inflated everything before it.  The handler of zlib.error must not throw that away (`decompressed = b\'\'`)
+    gp = repo.func('pydoctor.sphinx.SphinxInventory._getPayload')
+    hs = [h for t in gp.walk() if isinstance(t, ast.Try) for h in t.handlers if h.type is not None and 'zlib.error' in norm(h.type) and
+          any(isinstance(c, ast.Call) and call_name(c) == 'decompress' for st in t.body for c in ast.walk(st))]
+    if not hs:
+        raise AnalysisError('R17.3: the zlib.error handler around decompress() was not found in _getPayload')
+    for h in hs:
+        empties = [a for st in h.body for a in ast.walk(st) if isinstance(a, ast.Assign) and isinstance(a.value, ast.Constant) and a.value.value == b'']
+        retries = any(isinstance(c, ast.Call) and call_name(c) in ('decompress', 'decompressobj') for st in h.body for c in ast.walk(st))
+        okh = retries or not empties
+        chk.ob('R17.3', 'pydoctor.sphinx.SphinxInventory._getPayload :: a damaged stream keeps the lines before the damage', okh,
+               'the handler recovers the prefix' if okh else
+               f'`{norm(empties[0])}` in the zlib.error handler: one inverted byte at 3/4 of a 400-line inventory makes every entry unresolvable, although 398 lines inflate fine '
+               'when the stream is fed step by step', repo.loc(gp.mod, h))
